@@ -37,6 +37,24 @@ typedef struct { _Bool b[8]; } std_bitset_8;
 static inline std_bitset_8* std_bitset_8_set__u64_b(std_bitset_8* s, unsigned long i, _Bool v) { if (i >= 8) { __verif_exc_oob = 1; return s; } s->b[i] = v; return s; }
 static inline _Bool std_bitset_8_test__u64_k(const std_bitset_8* s, unsigned long i) { if (i >= 8) { __verif_exc_oob = 1; return 0; } return s->b[i]; }
 /* std::optional<int> / std::unique_ptr<int> models */
+/* std::forward_list<int>: size + index iterators; emplace_after anywhere but behind the last element is recorded (order of the items) */
+typedef struct { size_t size; } std_forward_list_i32_valloc_i32;
+typedef struct { size_t idx; } std_Fwd_list_iterator_i32;
+typedef struct { size_t idx; } std_Fwd_list_const_iterator_i32;
+static std_forward_list_i32_valloc_i32* g_fl; static _Bool g_fl_mid;
+#define FL std_forward_list_i32_valloc_i32
+#define FLI std_Fwd_list_iterator_i32
+static inline void std_forward_list_i32_valloc_i32_resize__u64(FL* l, unsigned long n) { l->size = n; }
+static inline _Bool std_forward_list_i32_valloc_i32_empty___k(const FL* l) { return l->size == 0; }
+static inline FLI std_forward_list_i32_valloc_i32_begin(FL* l) { FLI it; it.idx = 0; return it; }
+static inline FLI std_forward_list_i32_valloc_i32_end(FL* l) { FLI it; it.idx = l->size; return it; }
+static inline _Bool m_std_operator_op_ne__rkstd_Fwd_list_iterator_i32_rkstd_Fwd_list_iterator_i32(const FLI* a, const FLI* b) { return a->idx != b->idx; }
+static inline FLI* std_Fwd_list_iterator_i32_op_inc(FLI* it) { __CPROVER_assert(it->idx < g_fl->size, "MODEL: only a valid (non-end) forward_list iterator is incremented"); it->idx++; return it; }
+static inline FLI* std_Fwd_list_iterator_i32_op_assign__rkstd_Fwd_list_iterator_i32(FLI* a, const FLI* b) { *a = *b; return a; }
+static inline FLI* std_Fwd_list_iterator_i32_op_assign__xstd_Fwd_list_iterator_i32(FLI* a, FLI* b) { *a = *b; return a; }
+static inline std_Fwd_list_const_iterator_i32 std_Fwd_list_const_iterator_i32_ctor__rkstd_Fwd_list_iterator_i32(const FLI* b) { std_Fwd_list_const_iterator_i32 c; c.idx = b->idx; return c; }
+static inline FLI std_forward_list_i32_valloc_i32_emplace_after__std_Fwd_list_const_iterator_i32(FL* l, std_Fwd_list_const_iterator_i32 pos) {
+  __CPROVER_assert(pos.idx < l->size, "MODEL: emplace_after needs a valid (non-end) iterator (UB otherwise)"); if (pos.idx + 1 != l->size) g_fl_mid = 1; l->size++; FLI it; it.idx = pos.idx + 1; return it; }
 typedef struct { char __e; } std_nullopt_t; static const std_nullopt_t m_std_nullopt = {0};
 typedef struct { _Bool has; int v; } vopt_i32;
 static inline _Bool vopt_i32_has_value___k(const vopt_i32* o) { return o->has; }
@@ -52,6 +70,7 @@ static inline UP m_std_make_unique_i32(void) { UP u; g_heap_cell = 0; u.p = &g_h
 static inline UP* std_unique_ptr_i32_std_default_delete_i32_op_assign__xstd_unique_ptr_i32_std_default_delete_i32(UP* a, UP* b) { if (a->p) g_frees++; a->p = b->p; b->p = 0; return a; }
 static inline int* std_unique_ptr_i32_std_default_delete_i32_op_star___k(const UP* u) { __CPROVER_assert(u->p != 0, "MODEL: unique_ptr::operator* on a non-null pointer (UB otherwise)"); return u->p; }
 static inline void std_unique_ptr_i32_std_default_delete_i32_reset__pi32(UP* u, int* np) { if (u->p) g_frees++; u->p = np; }
+static inline int* std_Fwd_list_iterator_i32_op_star___k(const FLI* it) { __CPROVER_assert(it->idx < g_fl->size, "MODEL: only a valid (non-end) forward_list iterator is dereferenced"); g_deref_idx = it->idx; return &g_dummy; }
 #include "gen.h"
 /* abstract load scope: N items; IsEnd <=> all N were requested; each SerializeValue raises or delivers the next item */
 static _Bool g_elem_w_after_resize; static size_t g_size_after_resize; static int g_vb_mode; static size_t g_b_loaded, g_b_n;
@@ -89,6 +108,17 @@ _Bool AbsLoadArrayScope_SerializeValue__rb(struct AbsLoadArrayScope* s, _Bool* v
   __CPROVER_loop_invariant(__verif_exc == 0 && loadedItems == g_b_loaded && g_b_loaded <= g_b_n && cont->size >= loadedItems && (g_b_loaded == g_b_n || (cont->size == loadedItems && loadedItems >= g_size_after_resize)) && cont == g_bvec && \
      (g_bw >= loadedItems ? (!g_w_item_loaded && (g_bw >= cont->size || g_elem_w == g_elem_w_after_resize)) : (g_w_item_loaded ? g_elem_w == g_item_w : g_elem_w == (g_bw < g_size_after_resize ? g_elem_w_after_resize : 0)))) \
   __CPROVER_decreases(g_b_n - g_b_loaded)
+#define FLF SerializeArray_AbsLoadArrayScope_i32_valloc_i32__rAbsLoadArrayScope_rstd_forward_list_i32_valloc_i32
+#define VERIF_LOOP_SerializeArray_AbsLoadArrayScope_i32_valloc_i32__rAbsLoadArrayScope_rstd_forward_list_i32_valloc_i32_1 \
+  __CPROVER_assigns(it, LastIt, loadedItems, g_loaded, g_w_slot, g_w_done, g_deref_idx, __verif_exc, __verif_exc_code VERIF_TMPS_SerializeArray_AbsLoadArrayScope_i32_valloc_i32__rAbsLoadArrayScope_rstd_forward_list_i32_valloc_i32) \
+  __CPROVER_loop_invariant(__verif_exc == 0 && loadedItems == g_loaded && g_loaded <= g_n && it.idx == loadedItems && it.idx <= cont->size && cont->size >= 1 && cont == g_fl && !g_fl_mid \
+     && LastIt.idx == (loadedItems == 0 ? 0 : loadedItems - 1) && (g_w >= g_loaded || (g_w_done && g_w_slot == g_w))) \
+  __CPROVER_decreases(cont->size - it.idx)
+#define VERIF_LOOP_SerializeArray_AbsLoadArrayScope_i32_valloc_i32__rAbsLoadArrayScope_rstd_forward_list_i32_valloc_i32_2 \
+  __CPROVER_assigns(LastIt, loadedItems, g_loaded, g_w_slot, g_w_done, g_deref_idx, g_fl_mid, cont->size, __verif_exc, __verif_exc_code VERIF_TMPS_SerializeArray_AbsLoadArrayScope_i32_valloc_i32__rAbsLoadArrayScope_rstd_forward_list_i32_valloc_i32) \
+  __CPROVER_loop_invariant(__verif_exc == 0 && loadedItems == g_loaded && g_loaded <= g_n && cont == g_fl && !g_fl_mid && (g_loaded == g_n || (cont->size == loadedItems && cont->size >= 1 && LastIt.idx == cont->size - 1)) \
+     && (g_w >= g_loaded || (g_w_done && g_w_slot == g_w))) \
+  __CPROVER_decreases(g_n - g_loaded)
 #include "gen.c"
 void h_load_vector(void) { g_vb_mode = 0; struct AbsLoadArrayScope scope; vvec_i32 vec; g_vec = &vec; vec.size = nondet_size_t(); vec.resizes = 0; __CPROVER_assume(vec.size <= ((size_t)1 << 50));   /* any prior content */
   g_n = nondet_size_t(); __CPROVER_assume(g_n <= ((size_t)1 << 50)); g_estimate = nondet_size_t(); __CPROVER_assume(g_estimate <= ((size_t)1 << 50));   /* the estimate may be 0, smaller or larger than N */
@@ -96,6 +126,14 @@ void h_load_vector(void) { g_vb_mode = 0; struct AbsLoadArrayScope scope; vvec_i
   verif_inst_load_vector__rAbsLoadArrayScope_rvvec_i32(&scope, &vec);
   VERIF_ASSERT("C18", __verif_exc != 0 || (vec.size == g_n && g_loaded == g_n), "after a successful load the container has exactly as many elements as the archive array: no stale element survives, nothing loaded is lost, whatever the prior size and the size estimate");
   VERIF_ASSERT("C18", __verif_exc != 0 || g_w >= g_n || (g_w_done && g_w_slot == g_w), "item number w of the archive is loaded into element number w of the container (arbitrary witness w)");
+  VERIF_CANARY(); }
+/* std::forward_list<int> loader (types/std/forward_list.h): any prior length, any size estimate (0 = unknown, smaller, larger), N items */
+void h_load_forward_list(void) { g_vb_mode = 0; struct AbsLoadArrayScope scope; FL lst; g_fl = &lst; g_fl_mid = 0; lst.size = nondet_size_t(); __CPROVER_assume(lst.size <= ((size_t)1 << 50));   /* any prior content */
+  g_n = nondet_size_t(); __CPROVER_assume(g_n <= ((size_t)1 << 50)); g_estimate = nondet_size_t(); __CPROVER_assume(g_estimate <= ((size_t)1 << 50));
+  g_loaded = 0; g_w = nondet_size_t(); g_w_done = 0; g_w_slot = 0; __verif_exc = 0; vvec_i32 dummy; dummy.size = 0; g_vec = &dummy;
+  verif_inst_load_forward_list__rAbsLoadArrayScope_rstd_forward_list_i32_valloc_i32(&scope, &lst);
+  VERIF_ASSERT("C18", __verif_exc != 0 || (lst.size == g_n && g_loaded == g_n), "after a successful load the forward_list has exactly as many elements as the archive array: no stale element survives, nothing loaded is lost, whatever the prior length and the size estimate");
+  VERIF_ASSERT("C18", __verif_exc != 0 || g_w >= g_n || (g_w_done && g_w_slot == g_w && !g_fl_mid), "item number w of the archive is loaded into element number w of the list, new elements are only appended behind the last one (arbitrary witness w)");
   VERIF_CANARY(); }
 /* optional / unique_ptr: one value is requested; it loads (ret true, value written), is reported as not loaded (null / skipped), or the load raises */
 static int g_prior;
@@ -125,6 +163,7 @@ void h_load_bitset(void) { struct AbsLoadArrayScope scope; std_bitset_8 bs, bs0;
   VERIF_CANARY(); }
 /*@jobs
 job entry=h_load_vector props=C18,C02 mode=direct loops=1 unwind=2
+job entry=h_load_forward_list props=C18,C02 mode=direct loops=1 unwind=2
 job entry=h_load_vector_bool props=C18,C05,C02 mode=direct loops=1 unwind=2
 job entry=h_load_bitset props=C18,C05,C02 mode=direct unwind=10
 job entry=h_load_optional props=C18,C20,C02 mode=direct unwind=2
